@@ -339,6 +339,9 @@ impl Property for C10 {
     fn case_limit_s(&self) -> u64 {
         60
     }
+    fn fuzz(&self) -> Option<crate::FuzzSpec> {
+        Some(crate::FuzzSpec { label: "c10-ws", max_len: 800, runs: 750 })
+    }
     fn run(&self, ctx: &mut Ctx) {
         let corpus_files = corpus();
         let cases = ctx.tier.pick(3_000, 80_000);
